@@ -930,4 +930,108 @@ theorem dfk_length (csz : Nat) (hc : 0 < csz) (swap : Bool) (bs : List Byte) : (
   congr 1
   apply List.map_congr_left; intro c _; simp [tr_length]
 
+/-! ## several RI ids on one image: the bookkeeping invariant -/
+
+/-- the bookkeeping agrees with the element: `data_modified`, a positive `Hlength` and unflushed data imply an element;
+    an element has its tag/ref and is either visible to `Hlength` or still buffered with `data_modified` set -/
+def Coherent {α} (st : Store α) (b : Book) : Prop :=
+  (b.dataModified = true → st.elem.isSome = true) ∧ (b.hlen = true → st.elem.isSome = true) ∧
+  (b.pending = true → st.elem.isSome = true) ∧
+  (st.elem.isSome = true → b.tagSet = true ∧ (b.hlen = true ∨ (b.pending = true ∧ b.dataModified = true)))
+
+/-- under `Coherent` the C's `!new_image` / `image_data` is exactly "the element exists" -/
+theorem hasData_eq {α} (st : Store α) (b : Book) (h : Coherent st b) : b.hasData = st.elem.isSome := by
+  obtain ⟨h1, h2, _, h4⟩ := h
+  unfold Book.hasData
+  cases he : st.elem.isSome
+  · rw [he] at h1 h2
+    cases hd : b.dataModified <;> cases hh : b.hlen <;> simp_all
+  · obtain ⟨ht, h5⟩ := h4 he
+    rcases h5 with h5 | ⟨_, h5⟩ <;> simp [ht, h5]
+
+theorem view_eq {α} (im : Img α) (h : Coherent im.st im.bk) : im.view = im.st := by
+  unfold Img.view
+  rw [hasData_eq _ _ h]
+  cases he : im.st.elem with
+  | none => simp; cases hs : im.st; simp_all
+  | some e => simp
+
+theorem coherent_closeAid {α} (st : Store α) (b : Book) (h : Coherent st b) : Coherent st b.closeAid := by
+  unfold Coherent Book.closeAid at *
+  obtain ⟨h1, h2, h3, h4⟩ := h
+  refine ⟨h1, ?_, by simp, ?_⟩
+  · simp only [Bool.or_eq_true]; rintro (g | g); exacts [h2 g, h3 g]
+  · intro he; obtain ⟨ht, g⟩ := h4 he
+    refine ⟨ht, Or.inl ?_⟩
+    rcases g with g | ⟨g, _⟩ <;> simp [g]
+
+theorem coherent_getaid {α} (st : Store α) (b : Book) (w : Bool) (h : Coherent st b) :
+    Coherent st (b.getaid w) ∧ (b.getaid w).tagSet = true ∧ (b.getaid w).ids = b.ids ∧ (b.getaid w).buffered = b.buffered := by
+  have h0 : Coherent st { b with tagSet := true } := by
+    unfold Coherent at *; obtain ⟨h1, h2, h3, h4⟩ := h
+    exact ⟨h1, h2, h3, fun he => ⟨rfl, (h4 he).2⟩⟩
+  unfold Book.getaid
+  simp only
+  split
+  · have := coherent_closeAid st _ h0
+    split
+    · exact ⟨this, rfl, rfl, rfl⟩
+    · exact ⟨this, rfl, rfl, rfl⟩
+  · split
+    · exact ⟨h0, rfl, rfl, rfl⟩
+    · exact ⟨h0, rfl, rfl, rfl⟩
+
+theorem coherent_wrote {α} (st' : Store α) (b : Book) (ht : b.tagSet = true) (he : st'.elem.isSome = true) :
+    Coherent st' b.wrote := by
+  unfold Coherent Book.wrote
+  refine ⟨fun _ => he, fun _ => he, fun _ => he, fun _ => ⟨ht, ?_⟩⟩
+  cases hb : b.buffered <;> simp
+
+theorem coherent_select {α} (st : Store α) (b b' : Book) (k : Nat) (h : Coherent st b) (hs : b.select k = some b') :
+    Coherent st b' ∧ b'.ids = k :: b.ids ∧ b'.buffered = b.buffered ∧ b.ids.contains k = false := by
+  unfold Book.select at hs
+  split at hs
+  · cases hs
+  · cases hs; rename_i hk; exact ⟨h, rfl, rfl, by simpa using hk⟩
+
+theorem coherent_endaccess {α} (st : Store α) (b b' : Book) (k : Nat) (h : Coherent st b) (hs : b.endaccess k = some b') :
+    Coherent st b' ∧ b'.ids = b.ids.erase k ∧ b'.buffered = b.buffered ∧ b.ids.contains k = true := by
+  unfold Book.endaccess at hs
+  split at hs
+  · cases hs
+  · rename_i hk
+    simp only [Option.some.injEq] at hs
+    subst hs
+    have h0 : Coherent st { b with ids := b.ids.erase k } := h
+    split
+    · exact ⟨coherent_closeAid st _ h0, rfl, rfl, by simpa using hk⟩
+    · exact ⟨h0, rfl, rfl, by simpa using hk⟩
+
+theorem coherent_setcompress {α} (st : Store α) (b b' : Book) (h : Coherent st b) (hs : b.setcompress = some b') :
+    Coherent st b' ∧ b'.ids = b.ids ∧ b'.buffered = true ∧ b.buffered = false := by
+  unfold Book.setcompress at hs
+  split at hs
+  · cases hs
+  · rename_i hk
+    simp only [Option.some.injEq] at hs
+    subst hs
+    have h0 := coherent_closeAid st b h
+    refine ⟨?_, rfl, rfl, by simpa using hk⟩
+    unfold Coherent at *
+    obtain ⟨h1, h2, h3, h4⟩ := h0
+    exact ⟨h1, h2, h3, fun he => ⟨rfl, (h4 he).2⟩⟩
+
+theorem coherent_reopened {α} (v : Variant) (st : Store α) (b : Book) (h : Coherent st b) :
+    Coherent ({ st with fillImg := v.lateFill }) b.reopened := by
+  have h0 := coherent_closeAid st b h
+  unfold Coherent Book.reopened at *
+  obtain ⟨h1, h2, h3, h4⟩ := h0
+  refine ⟨by simp, h2, h3, ?_⟩
+  intro he
+  obtain ⟨ht, g⟩ := h4 he
+  refine ⟨ht, Or.inl ?_⟩
+  rcases g with g | ⟨g, _⟩
+  · exact g
+  · simp [Book.closeAid] at g
+
 end H4.GRegion
